@@ -3,6 +3,10 @@ import Asts.Proofs.WE_Pause
 import Asts.Proofs.WE_History
 import Asts.Proofs.WE_Monitor
 import Asts.Proofs.WE_Traj
+import Asts.Proofs.WE_Revert
+import Asts.Proofs.WE_NoRestartModel
+import Asts.Proofs.WE_Lossless
+import Asts.Proofs.WE_AfterEdits
 import Asts.Props.C08
 import Asts.Props.C02
 
@@ -196,6 +200,160 @@ theorem C02_after_last_edit (h : Hashing) (script : Script) (fuel j silent : Nat
     ∃ n ≤ roundBound (applyEdits (editsAt script j) i), Final h (roundsN h n (applyEdits (editsAt script j) i)) :=
   ⟨runHistory_last h script fuel j silent i plan hs, Asts.C02.C02_converges h _ hw hx⟩
 
+/-! ## the monitors of the `worldedit` engine, true on the model
+
+`observeHist (runHistory h script fuel 1 0 i plan)` is what the driver prints of the model's history; each predicate below is
+the one the driver evaluates on the real code's observation. Hypotheses are spelled out at each theorem; where a hypothesis
+is an invariant of the model's run that is true but not proved here (pod names stay distinct along a run, fewer than
+`freshId` pod objects) the theorem is named `…_partial`. -/
+
+/-! ### C08.revert -/
+
+/-- **C08.revert, the monitor, is true on the model** — every hashing, script, budget, fault plan and every initial world
+    whose stored revisions have distinct names (the monitor looks revisions up by name; one API namespace) -/
+theorem C08_revert_monitor_true_on_model (h : Hashing) (script : Script) (fuel : Nat) (i : SyncIn) (plan : List Fault)
+    (hn : (i.store.map (·.name)).Nodup) :
+    C08revert h i (observeHist (runHistory h script fuel 1 0 i plan)) = true :=
+  C08revert_model h script fuel i plan hn
+
+/-- the clause on one round: world `W` after a template edit, not paused, selector in order, a visible stored revision
+    records the template under a compatible hash label, the round succeeds -/
+theorem C08_revert_round (h : Hashing) (W : SyncIn) (p : List Fault) (hn : (W.store.map (·.name)).Nodup)
+    (hnp : W.paused = false) (hsel : W.selectorOk = true) (hok : (round h W p).2.out = "ok")
+    (held : W.store.any (fun q => visibleRev q && q.data == W.template &&
+      hashCompat q.hashNum (h.hashNumOf W.template (W.collisionCount.getD 0))) = true) :
+    ((round h W p).2.revs.all (fun x => W.store.any (·.name == x.name)) &&
+     (round h W p).2.revs.any (fun u => u.name == (round h W p).2.status.updateRev && u.data == W.template &&
+       ((round h W p).2.revs.filter visibleRev).all (fun v => v.number ≤ u.number) &&
+       (W.store.any (fun q => q.name == u.name && q.number == u.number) ||
+        ((round h W p).2.revs.filter visibleRev).all (fun v => v.name == u.name || v.number < u.number)))) = true :=
+  revert_step h W p hn hnp hsel hok held
+
+/-! ### C08.norestart
+
+The invariant `Inv W` (`Proofs/WE_Inv.lean`): stored revisions have distinct names and are all visible to the set, and the
+revision `status.updateRevision` names records the template and is the newest of the store. -/
+
+/-- a successful reconcile of the un-paused set establishes the invariant, whatever was edited before it -/
+theorem C08_invariant_established {h : Hashing} (hnum : ∀ d c, h.hashNumOf d c = none) (W : SyncIn) (p : List Fault)
+    (hn : (W.store.map (·.name)).Nodup) (hv : AllVis W.store)
+    (hrun : (W.paused || !W.selectorOk) = false) (hok : (round h W p).2.out = "ok") : Inv (round h W p).1 :=
+  inv_established hnum W p hn hv hrun hok
+
+/-- a round that follows edits other than a template edit preserves it, whatever its outcome -/
+theorem C08_invariant_preserved {h : Hashing} (hnum : ∀ d c, h.hashNumOf d c = none) (W : SyncIn) (es : List Edit)
+    (p : List Fault) (hes : ∀ e ∈ es, keepsTemplate e = true) (hI : Inv W) : Inv (round h (applyEdits es W) p).1 :=
+  inv_preserved hnum W es p hes hI
+
+/-- the status half on one round, from a pinned world (no hypothesis on the hashing): whatever the pods, the fault plan and
+    the outcome, `status.updateRevision` stays -/
+theorem C08_norestart_status_round (h : Hashing) (W : SyncIn) (es : List Edit) (p : List Fault)
+    (hes : ∀ e ∈ es, keepsTemplate e = true) (hpin : Pinned h p W) :
+    (round h (applyEdits es W) p).2.status.updateRev = W.stored.updateRev :=
+  norestart_status_step h W es p hes hpin
+
+/-- the pods half on one round: a live pod of the (new) desired set at the revision `status.updateRevision` names is still
+    there, not terminating, after the round -/
+theorem C08_norestart_pods_round {h : Hashing} (hnum : ∀ d c, h.hashNumOf d c = none) (W : SyncIn) (es : List Edit)
+    (p : List Fault) (hes : ∀ e ∈ es, keepsTemplate e = true) (hI : Inv W) (hlen : W.pods.length ≤ freshId)
+    (c : CPod) (hc : c ∈ W.pods) (hterm : c.pod.terminating = false) (hf : c.pod.failed = false)
+    (hs : c.pod.succeeded = false) (hrev : c.pod.rev = W.stored.updateRev)
+    (hD : c.pod.ord ∈ desired ((applyEdits es W).view.replicas.getD 0) (applyEdits es W).view.slots) :
+    ∃ q ∈ (round h (applyEdits es W) p).1.pods, q.name = c.name ∧ q.pod.terminating = false :=
+  norestart_pods_step hnum W es p hes hI hlen c hc hterm hf hs hrev hD
+
+/-- **C08.norestart, the monitor, is true on the model.** `_partial`: the statement for every input is false (a stored
+    revision whose hash label contradicts the computed one makes the update revision move without any edit:
+    `Props/C02.lean`, `equalRevision_not_transitive_quiet_not_final`), so a premise on the labels is needed; the one used
+    here, `hnum` (labels never parse as numbers: the real label is ten characters of a vowel-free alphanumeric alphabet),
+    is sufficient, not the weakest. Also assumed: stored revisions have distinct names and are ALL visible to the set
+    (no revision of another controller, none without selector labels and marker — such a revision can squat on a probed
+    name), and no world of the history holds more than `freshId` = 10^6 pod objects (ids are positions). -/
+theorem C08_norestart_monitor_true_on_model_partial (h : Hashing) (script : Script) (fuel : Nat) (i : SyncIn)
+    (plan : List Fault) (hnum : ∀ d c, h.hashNumOf d c = none) (hn : (i.store.map (·.name)).Nodup)
+    (hv : AllVis i.store) (hsize : ∀ k, (worldFrom h script 1 plan i k).pods.length ≤ freshId) :
+    C08noRestart i (observeHist (runHistory h script fuel 1 0 i plan)) = true :=
+  C08noRestart_model h script fuel i plan hnum hn hv hsize
+
+/-! ### a silent reconcile changes nothing -/
+
+/-- a sync under the empty fault plan whose log holds no write and that ends `.ok` leaves the revision store as it was,
+    writes no status and records no pod-control call -/
+theorem silent_sync_changes_nothing (h : Hashing) (i : SyncIn) (hg : i.fresh.gone = false)
+    (hok : (syncF h i []).outcome = .ok) (hq : ∀ e ∈ (syncF h i []).log, isWrite e = false) :
+    (syncF h i []).store = i.store ∧ (syncF h i []).status = none ∧ (syncF h i []).acts = [] :=
+  silent_sync h i hg hok hq
+
+/-- **a silent successful round is a fixed point**: the world after it is the settled world, and every later round shows
+    the same observation and leaves the same world -/
+theorem silent_round_is_fixed_point (h : Hashing) (W : SyncIn) (hv : ViewInStep W) (hn : (W.pods.map (·.name)).Nodup)
+    (hs : silentOk (round h W []).2 = true) :
+    (round h W []).1 = settle W ∧ round h (round h W []).1 [] = round h W [] :=
+  ⟨silent_round_fix h W hv hn hs, silent_round_repeats h W hv hn hs⟩
+
+/-! ### C11.lossless -/
+
+/-- **C11.lossless, the monitor, is true on the model** for every script (`ref` is the model's own never-paused run, as in
+    the driver). When the script is one pause interval, `pauseInterval script = some (a, b)`, the premises are `2 ≤ a` (the
+    case format; a pause before round 1 would swallow the fault plan of round 1) and a budget that reaches round `b` (if the
+    budget ends inside the pause the predicate is false on the model too). `_partial`: the hypothesis that pod names are
+    distinct in every world of the never-paused run is an invariant of the model that is not proved here. -/
+theorem C11_lossless_monitor_true_on_model_partial (h : Hashing) (plan : List Fault) (i : SyncIn) (script : Script)
+    (fuel : Nat) (hnp : i.paused = false) (hnod : ∀ n, ((plainWorld h i plan n).pods.map (·.name)).Nodup)
+    (hpi : ∀ a b, pauseInterval script = some (a, b) → 2 ≤ a ∧ b ≤ fuel) :
+    C11lossless i script (observeHist (runHistory h script fuel 1 0 i plan)) (runRounds h fuel 0 i plan) = true :=
+  C11lossless_model_any h plan i script fuel hnp hnod hpi
+
+/-- what the proof rests on: the observations of a history with one pause interval are the rounds up to the un-pause
+    followed by the plain run of the world the pause found -/
+theorem pause_history_is_spliced_run (h : Hashing) (plan : List Fault) (i : SyncIn) (a d fuel : Nat) (hnp : i.paused = false)
+    (hnod : ∀ n, ((plainWorld h i plan n).pods.map (·.name)).Nodup) (hfuel : a + d + 2 ≤ fuel) :
+    (runHistory h (pauseScript a d) fuel 1 0 i plan).map (·.obs) =
+      ((List.range (a + d + 2)).map (histRoundAt h (pauseScript a d) 1 plan i)).map (·.obs) ++
+        runRounds h (fuel - (a + d + 2)) 0 (plainWorld h i plan (a + 1)) [] :=
+  pause_history_obs h plan i a d fuel hnp hnod hfuel
+
+/-! ### C02: from `Final` within the bound to the Boolean monitor, and C02.afteredits -/
+
+/-- **the monitor `C02converges` is true on the model's run** (the clause `C02.converges` of the `world` engine, empty fault
+    plan): world inside `wfWorld` and `extraMB`, budget at least `roundBound + 2`. This is the step from `C02_converges`
+    (`∃ n ≤ roundBound, Final`) to the Boolean the driver evaluates on the list `runRounds` returns; it needs that a run
+    which has gone quiet is in its final state, which follows from `silent_round_is_fixed_point`. `_partial`: pod names
+    distinct along the run is assumed, not derived from `extraMB`. -/
+theorem C02converges_monitor_true_on_model_partial (h : Hashing) (W : SyncIn) (fuel : Nat)
+    (hw : wfWorld h W = true) (hx : extraMB h W = true) (hv : ViewInStep W)
+    (hnod : ∀ n, ((roundsN h n W).pods.map (·.name)).Nodup) (hfuel : roundBound W + 2 ≤ fuel) :
+    C02converges h W (runRounds h fuel 0 W []) = true :=
+  C02converges_run h W fuel hv hnod (Asts.C02.C02_converges h W hw hx) hfuel
+
+/-- **C02.afteredits, the monitor, is true on the model — histories with edits.** The last edits of the script are made
+    before round `k + 2`; `W` is the world they produce; `settle W` is inside `wfWorld` and `extraMB`; the budget covers the
+    `k + 1` rounds before, `roundBound (settle W)` and 2 more. `_partial`: distinct pod names in `W` and along the run from
+    `settle W` are assumed. -/
+theorem C02_afteredits_monitor_true_on_model_partial (h : Hashing) (script : Script) (fuel : Nat) (i : SyncIn)
+    (plan : List Fault) (k : Nat) (hlast : ∀ e ∈ script, e.1 ≤ k + 2) (hed : (editsAt script (k + 2)).isEmpty = false)
+    (hw : wfWorld h (settle (wAt h script plan i (k + 1))) = true)
+    (hx : extraMB h (settle (wAt h script plan i (k + 1))) = true)
+    (hnW : ((wAt h script plan i (k + 1)).pods.map (·.name)).Nodup)
+    (hnod : ∀ n, ((roundsN h n (settle (wAt h script plan i (k + 1)))).pods.map (·.name)).Nodup)
+    (hfuel : k + 1 + roundBound (settle (wAt h script plan i (k + 1))) + 2 ≤ fuel) :
+    C02afterEdits h i (observeHist (runHistory h script fuel 1 0 i plan)) = true :=
+  C02afterEdits_model_edits h script fuel i plan k hlast hed hnW hnod (Asts.C02.C02_converges h _ hw hx) hfuel
+
+/-- … and histories without edits (empty script, empty fault plan) -/
+theorem C02_afteredits_monitor_true_on_model_noedits_partial (h : Hashing) (fuel : Nat) (i : SyncIn)
+    (hw : wfWorld h i = true) (hx : extraMB h i = true) (hv : ViewInStep i)
+    (hnod : ∀ n, ((roundsN h n i).pods.map (·.name)).Nodup) (hfuel : roundBound i + 2 ≤ fuel) :
+    C02afterEdits h i (observeHist (runHistory h [] fuel 1 0 i [])) = true :=
+  C02afterEdits_model_noedits h fuel i hv hnod (Asts.C02.C02_converges h i hw hx) hfuel
+
+/-- the world the monitor rebuilds from the observation at a round with edits IS the model's world of that round -/
+theorem monitor_world_is_model_world (h : Hashing) (script : Script) (plan : List Fault) (i : SyncIn) (fuel k : Nat)
+    (hk : k + 1 < (runHistory h script fuel 1 0 i plan).length)
+    (hed : (histRoundAt h script 1 plan i (k + 1)).edits.isEmpty = false) :
+    worldAtEdit i (observeHist (runHistory h script fuel 1 0 i plan)) (k + 1) = wAt h script plan i (k + 1) :=
+  worldAtEdit_eq h script plan i fuel k hk hed
+
 /-! ## non-vacuity -/
 
 private def exH : Hashing := { nameOf := fun d c => s!"web-{d}{c}", hashNumOf := fun _ _ => none }
@@ -220,6 +378,10 @@ example : (round exH (pausedFor exH [] 1 exW) []).2.writes = 0 := by decide +ker
 example : (round exH (applyEdit (.pause false) (pausedFor exH [] 2 exW)) []).2.writes = 3 := by decide +kernel
 /-- the script of `pause_interval_trajectory` is one the monitor `C11lossless` judges (pause before round 2, un-pause before 4) -/
 example : pauseInterval (pauseScript 0 1) = some (2, 4) := by decide
+/-- the premises of `C08_norestart_monitor_true_on_model_partial` and `C08_revert_monitor_true_on_model` hold of the example
+    world: no numeric labels, distinct names, every revision visible -/
+example : (∀ d c, exH.hashNumOf d c = none) ∧ (exW.store.map (·.name)).Nodup ∧ AllVis exW.store :=
+  ⟨fun _ _ => rfl, by decide, by unfold AllVis; decide⟩
 /-- a scaling edit and a template edit, told apart -/
 example : scalingOnly (.replicas 3) = true ∧ scalingOnly (.slots (some [1])) = true ∧ scalingOnly (.template "c") = false := by decide
 end Asts.WorldEdits
